@@ -165,6 +165,42 @@ func neutralSites(repo string, mutants bool) {
 					}
 				}
 				if mutants {
+					// a local variable (or parameter) replaced by the most recently declared other local of the same type that is in
+					// scope at that point ("the wrong variable")
+					{
+						var locals []*types.Var
+						ast.Inspect(fd, func(n ast.Node) bool {
+							if id, ok := n.(*ast.Ident); ok {
+								if v, isV := pkg.TypesInfo.Defs[id].(*types.Var); isV && !v.IsField() && v.Name() != "_" {
+									locals = append(locals, v)
+								}
+							}
+							return true
+						})
+						ast.Inspect(fd.Body, func(n ast.Node) bool {
+							id, ok := n.(*ast.Ident)
+							if !ok {
+								return true
+							}
+							v, isV := pkg.TypesInfo.Uses[id].(*types.Var)
+							if !isV || v.IsField() || v.Pkg() != pkg.Types || v.Parent() == pkg.Types.Scope() {
+								return true
+							}
+							var best *types.Var
+							for _, w := range locals {
+								if w == v || w.Name() == v.Name() || !types.Identical(w.Type(), v.Type()) || w.Pos() >= id.Pos() || w.Parent() == nil || !w.Parent().Contains(id.Pos()) {
+									continue
+								}
+								if best == nil || w.Pos() > best.Pos() {
+									best = w
+								}
+							}
+							if best != nil {
+								emit("local-sibling", id.Pos(), id.End(), best.Name())
+							}
+							return true
+						})
+					}
 					// typed mutation operators (these are NOT neutral): two adjacent arguments of one type exchanged, two
 					// same-typed fields of a keyed literal exchanged, a named constant replaced by its neighbour of the same type
 					ast.Inspect(fd.Body, func(n ast.Node) bool {
@@ -211,6 +247,28 @@ func neutralSites(repo string, mutants bool) {
 							case *ast.Ident:
 								id, node = y, y
 							case *ast.SelectorExpr:
+								// a field replaced by the next field of the same type of the same struct ("the wrong field")
+								if sel, isF := pkg.TypesInfo.Selections[y]; isF && sel.Kind() == types.FieldVal && len(sel.Index()) == 1 {
+									rt := sel.Recv()
+									if pt, isP := rt.Underlying().(*types.Pointer); isP {
+										rt = pt.Elem()
+									}
+									if st, isS := rt.Underlying().(*types.Struct); isS {
+										cur := sel.Index()[0]
+										for d := 1; d < st.NumFields(); d++ {
+											f := st.Field((cur + d) % st.NumFields())
+											if !types.Identical(f.Type(), st.Field(cur).Type()) || f.Embedded() {
+												continue
+											}
+											if !f.Exported() && f.Pkg() != pkg.Types {
+												continue
+											}
+											emit("field-sibling", y.Sel.Pos(), y.Sel.End(), f.Name())
+											break
+										}
+									}
+									return true
+								}
 								if _, isPkg := pkg.TypesInfo.Uses[idOf(y.X)].(*types.PkgName); !isPkg {
 									return true
 								}
